@@ -250,3 +250,16 @@ package ipfscluster
 // cbor decoding glue of the sharding package and the ipld node accessors: assumed not to touch cluster state
 //@ extern sharding.CborDataToNode(raw, format)
 //@   modifies nothing
+
+// ---- C09: publish cadence of the ping metric ----
+//@ interface PeerMonitor.PublishMetric(ctx, m)
+//@   modifies nothing
+
+// "a running peer republishes ... the ping before the previous one expires": the ping's TTL is twice the interval it is sent at
+//@ func (c *Cluster) sendPingMetric
+//@   property C09
+//@   ensures res1 != nil && res1.Valid && res1.Name == pingMetricName && res1.Peer == c.id
+//@   ensures unixnano(res1.Expire) >= old(now) + 2 * c.config.MonitorPingInterval
+//@   modifies nothing
+//@ lemma ping_cadence: forall d int :: d > 0 ==> d < 2 * d
+//@   property C09
